@@ -178,6 +178,8 @@ type vSim struct {
 	firstKind map[uint64]string // kind under which an id was first admitted on any replica
 	fair      bool
 	stats     map[string]int
+	mute      bool         // xsim: replay of a path prefix, nothing is projected or written
+	sink      func(jEvent) // xsim: events are handed over instead of written
 }
 
 const (
@@ -577,6 +579,9 @@ type jEvent struct {
 func (s *vSim) emit(e jEvent, n *vNode) {
 	e.T, e.I = s.tid, s.step
 	s.step++
+	if s.mute {
+		return
+	}
 	if n != nil {
 		p := s.proj(n)
 		e.Post = &p
@@ -590,6 +595,11 @@ func (s *vSim) emit(e jEvent, n *vNode) {
 		if e.M.Ents == nil {
 			e.M.Ents = []jEnt{}
 		}
+	}
+	if s.sink != nil {
+		s.sink(e)
+		s.stats[e.A]++
+		return
 	}
 	b, err := json.Marshal(e)
 	if err != nil {
